@@ -61,6 +61,12 @@ CHECKS["C17"] = dict(
     technique="Lean 4 theorems (induction over strings; segment refinement of the writer) + exhaustive glyph sweeps as tie",
     ref="§5 C17")
 
+CHECKS["C14"] = dict(
+    text="Model level (Lean): a channel is a byte sink; the stdout sink delivers the concatenation of all writes unchanged and in order for arbitrary content and sizes, the bytes a terminal produces do not depend on the sink, and equal the run output. The content of the property is runtime behaviour of the real stdout_channel: every check spawns child processes whose terminal is bound to terminalpp::stdout_channel, reads the pipe to EOF and compares byte for byte (NUL, >=0x80, writes of 0..64 KiB, 256 one-byte writes) with the capturing channel of the executor and with the model. Partial: the iostream layer and flushing at process exit are observed, not proved. On the pinned tree the check found the empty write() body (fixed).",
+    note="Lean kernel, no axioms beyond propext/Quot.sound; std::cout, the OS pipe and process-exit flushing are outside the model (stated limitation: level is proof for the sink model, differential execution for the runtime).",
+    technique="Lean 4 theorems on a byte-sink model + child-process differential execution of the real stdout_channel",
+    ref="§5 C14")
+
 NOT_YET = {}
 
 
